@@ -27,6 +27,11 @@ Clause -> case family
         +-0.49, +-0.4999, +-1/2 (tie, either neighbour accepted), 1/3 inside the rounding
         interval; Hypothesis histories add random factors/raws/offsets).  Set through
         `var.phys = x` and `var.write(x, "phys")`, read through `var.phys` / `var.read("phys")`.
+        Float slack only where float arithmetic needs it: when x and x/f are exact doubles (e.g.
+        exact multiples, family phys exact: |x/f| in 2^51..2^53 on the 56/64-bit types with
+        power-of-two factors) the stored raw value must be exactly x/f.  Family limits: od.min /
+        od.max are set; a request whose nearest integer lies beyond them is stored as that integer
+        or refused without writing - never silently replaced by another value.
   (b) "setting a description writes exactly the value it names and reading returns the
       description of the current value"
         ops "desc" / "desc_get" (families desc/*: tables of every size 1..20 on every type with
@@ -40,14 +45,34 @@ Clause -> case family
         step 1, `bits[:hi+1]` (lo == 0), defined name, and the list in descending order; field
         values all-ones, 0, pseudo-random, alternating on a pseudo-random start pattern and on
         its complement, so that both clearing and setting are observable; optionally through one
-        Bits object kept over consecutive assignments).  Signed carrier types are used for the
-        ranges below their sign bit (negative raw values included); fields that include the sign
-        bit of INTEGER8/16/24/32 are READ in every spelling (family bits/*/read-incl-sign-bit),
-        assigning to them is excluded by construction and counted (canopen raises ValueError
-        there - reported as a finding, not silently wrong).
+        Bits object kept over consecutive assignments).  Further spellings of the same range: the
+        descending slice `bits[hi:lo-1:-1]` (lo >= 1) and the list in rotated (non-monotonic)
+        order.  Signed carrier types are used for the ranges below their sign bit (negative raw
+        values included); fields that include the sign bit of INTEGER8/16/24/32 are read and
+        assigned in every spelling (family bits/*/read-incl-sign-bit).
+        op "bitdef": `var.od.add_bit_definition(name, bits)` AFTER the variable has been used - a
+        new name, or an existing name moved to other bits; later ops by that name must use the
+        definition that is current then.
   (d) "these views behave the same over SDO and PDO variables"
         every enumerated case runs on all three carriers; apart from the absolute oracle the
         observations (stored pattern + returned values) are compared between the carriers.
+        The PDO carrier has four sides: LocalNode.tpdo / RemoteNode.rpdo (built locally) and
+        RemoteNode.tpdo / LocalNode.rpdo (receive direction: the map is subscribed on a simulated
+        bus and values - the initial one, "raw" ops with via=rx, "poke" ops with route=rx - ARRIVE
+        as frames through Network.notify -> PdoMap.on_message; the views must then read AND
+        assign like on any other variable).
+
+The value behind the variable is not owned by the accessor object under test:
+  op "poke" changes the stored value out of band (a second, fresh accessor object of the same
+        entry; the node's set_data / the server application on the remote carrier; in-place or
+        replaced PdoMap.data, or a received frame on the PDO carrier).  "The current value" of
+        clause (b) and "the raw value" of (a)/(c) is the stored one: reads after a poke must show
+        it, and a set repeated with the identical argument must write again.  Set ops may carry
+        noread=true (no read-back in the same step), so that write -> poke -> read is generated.
+  op "refactor" assigns `var.od.factor` mid-history (the scaling factor of the variable is
+        corrected by the application); later phys ops are judged against the factor current then.
+  op "phys_get" reads `var.phys` of whatever is stored (after a poke / refactor): must lie
+        within half a step (+ float slack) of raw * factor.
 """
 from fractions import Fraction
 
@@ -61,23 +86,39 @@ from harness.simbus import Hub
 PROPERTY = "C20"
 LEVEL = "exploration"
 RULE = ("case = integer variable (type, factor, description table 1..20, bit definitions, position "
-        "var/record/array, PDO padding) + initial raw value + history of 1..8 ops (raw | phys set+read "
-        "back | desc set+read | desc read | bit field set+read | bit field read) executed on the "
+        "var/record/array, PDO padding) + initial raw value + history of 1..12 ops (raw | phys set+read "
+        "back | desc set+read | desc read | bit field set+read | bit field read | poke | refactor | bitdef | "
+        "redesc | phys read) executed on the "
         "carriers local SDO, remote SDO over the hub and PDO map. Enumerated: all 528 contiguous "
         "ranges within 32 bits x spellings {int,list,slice,slice-step1,slice-nostart,name,"
-        "list-descending} x carrier types that hold them (quick: UNSIGNED32 + one rotating type, "
+        "list-descending,list-rotated,slice-descending} x carrier types that hold them (quick: UNSIGNED32 + one rotating type, "
         "thorough: every type), reads of every field ending at the sign bit of INTEGER8..32, ~120 factors x types x boundary raws x offsets inside the rounding "
         "interval, tables of every size 1..20 x types; Hypothesis adds mixed histories, incl. "
         "edits of the description table between uses (add_value_description: new text for a described "
         "value, or one more entry), and a second variable that defines fields of the same names at other bit "
-        "positions and is used first. Oracle: "
-        "bit-pattern model + exact rationals: |raw - x/f| <= 1/2 + 2^-51|x/f|, |readback - x| <= "
-        "|f|/2 + float slack, desc/bits exact; stored bytes decoded by the harness. Non-trivial = a "
+        "positions and is used first. Further ops: poke (the stored value is changed OUT OF BAND: fresh "
+        "accessor object of the same entry / node.set_data or the server application / PdoMap.data in place, "
+        "replaced, or a received frame) followed by reads and by sets repeated with the identical argument; "
+        "set ops without read-back (noread); refactor (var.od.factor assigned mid-history); bitdef "
+        "(add_bit_definition after first use: new name, or an existing name moved) followed by ops by that "
+        "name; phys_get. Spellings also: descending slice bits[hi:lo-1:-1], list in rotated order. PDO carrier "
+        "sides: LocalNode.tpdo, RemoteNode.rpdo, and the receive direction RemoteNode.tpdo, LocalNode.rpdo "
+        "where values arrive as frames via Network.notify -> PdoMap.on_message (init_via / via / route = rx) "
+        "and the views are then assigned like anywhere else. Family limits: od.min/od.max set on the variable, "
+        "phys requests inside and outside. Enumerated families for each of these + Hypothesis. Oracle: "
+        "bit-pattern model + exact rationals: |raw - x/f| <= 1/2 + slack with slack = 0 when x and x/f are "
+        "exactly representable doubles (a correctly rounded division returns x/f itself: exact multiples must "
+        "give exactly that raw value, exact ties either neighbour), else 2^-53|x/f| per float rounding (1, or 2 "
+        "when x is an int that is no double); |readback - x| <= |f|/2 + |f|*slack + 2^-53|raw*f|; phys_get: "
+        "|y - raw*f| <= |f|/2 + float slack; a phys request whose nearest integer lies outside od.min/od.max "
+        "must be stored as that nearest integer or be refused without writing (never silently another value); "
+        "desc/bits exact; stored bytes decoded by the harness. Non-trivial = a "
         "phys op with factor != 1, a desc op on a table of >= 2 entries, or a bit op with lo > 0 and "
         "hi > lo; distinct = canonical JSON of the case.")
 ASSUMPTIONS = [
     "scaling is float arithmetic (factor is documented as float): the nearest-integer demand carries a "
-    "relative slack of 2^-51 of |x/f| (two float roundings), requests with |x/f| >= 2^53 are out of domain",
+    "relative slack of 2^-53 of |x/f| per float rounding (none when x and x/f are exact doubles), requests "
+    "with |x/f| >= 2^53 are out of domain",
     "requests whose nearest integer (within that slack) lies outside the type's range are out of domain",
     "a field value must fit the field; on signed carrier types fields are assigned only below the sign bit "
     "(fields including it are only read)",
@@ -85,6 +126,14 @@ ASSUMPTIONS = [
     "a Bits object is a snapshot: it is only reused across consecutive bit assignments, never across "
     "other writes",
     "description texts are non-empty and distinct, described values distinct and inside the type's range",
+    "the stored value (LocalNode.data_store / the SDO server's store / PdoMap.data) is THE raw value: it may be "
+    "changed by another accessor object, the application or a received PDO at any time between two operations",
+    "od.factor, add_value_description and add_bit_definition are the documented ways to edit a variable's "
+    "scaling / table / fields and may be used after the variable has been accessed",
+    "frames received for a PDO map have exactly the mapped length",
+    "od.min / od.max only ever matter for phys requests that fall outside them: those may be refused "
+    "(exception, nothing written) or stored unclamped; histories with limits contain only phys / raw ops "
+    "inside the limits and are not compared between carriers",
 ]
 BUDGET = {"quick": 150, "thorough": 400}
 
@@ -95,8 +144,11 @@ V_INDEX = 0x2001
 PAD_INDEX = 0x2000
 TAIL_INDEX = 0x2002
 PADBIT_INDEX = 0x2003
-TWO51 = Fraction(1, 1 << 51)
-SPELLINGS = ("int", "list", "list_rev", "slice", "slice0", "slice1", "name")
+TWO53 = Fraction(1, 1 << 53)
+SPELLINGS = ("int", "list", "list_rev", "list_rot", "slice", "slice0", "slice1", "slice_rev", "name")
+PDO_SIDES = ("tpdo", "rpdo", "rx_tpdo", "rx_rpdo")
+ROUTES = ("accessor", "backdoor", "rx")
+SET_KINDS = ("raw", "phys", "desc", "bset")
 
 
 # ---- small helpers ---------------------------------------------------------------
@@ -136,6 +188,11 @@ def _key(op):
         return list(range(lo, hi + 1))
     if sp == "list_rev":
         return list(range(hi, lo - 1, -1))
+    if sp == "list_rot":                    # the same bits, neither ascending nor descending
+        k = 1 + (lo * 7 + hi) % (hi - lo)
+        return list(range(lo + k, hi + 1)) + list(range(lo, lo + k))
+    if sp == "slice_rev":
+        return slice(hi, lo - 1, -1)        # bits[hi:lo-1:-1]
     if sp == "slice":
         return slice(lo, hi + 1)            # what bits[lo:hi+1] hands to __getitem__
     if sp == "slice0":
@@ -143,7 +200,7 @@ def _key(op):
     if sp == "slice1":
         return slice(lo, hi + 1, 1)
     if sp == "name":
-        return bit_name(lo, hi)
+        return op.get("name") or bit_name(lo, hi)
     raise ValueError(sp)
 
 
@@ -165,8 +222,38 @@ def _ceil(q):
     return -((-q.numerator) // q.denominator)
 
 
-def phys_tol(q):
-    return Fraction(1, 2) + abs(q) * TWO51
+def _is_double(q):
+    """Is the rational q exactly representable as a float (Fraction -> float is correctly rounded)."""
+    try:
+        return Fraction(float(q)) == q
+    except OverflowError:
+        return False
+
+
+def quot_slack(x, q):
+    """How far a float evaluation of x / f may be from the exact quotient q.
+
+    x (an exact double, or an int) and f are given exactly.  A correctly rounded division returns
+    q itself when q is a double; otherwise it is off by at most 2^-53 |q|.  An int x that is no
+    double is rounded once more on its way into the division."""
+    x_exact = isinstance(x, float) or _is_double(Fraction(x))
+    if x_exact and _is_double(q):
+        return Fraction(0)
+    if x_exact:
+        return abs(q) * TWO53
+    return abs(q) * (2 * TWO53 + TWO53 * TWO53)
+
+
+def phys_tol(x, q):
+    return Fraction(1, 2) + quot_slack(x, q)
+
+
+def prod_slack(r, f):
+    """How far a float evaluation of r * f may be from the exact product (r an int)."""
+    p = abs(r * f)
+    if _is_double(Fraction(r)):
+        return Fraction(0) if _is_double(r * f) else p * TWO53
+    return p * (2 * TWO53 + TWO53 * TWO53)
 
 
 # ---- domain of a case (static: depends on the case only) ---------------------------
@@ -179,11 +266,22 @@ def domain(case):
         return "factor is not a finite non-zero number"
     if not lo_v <= case["init"] <= hi_v:
         return "raw value outside the type's range"
+    limits = case.get("limits")
+    if limits:
+        if not lo_v <= limits[0] <= case["init"] <= limits[1] <= hi_v:
+            return "limits: min <= initial value <= max within the type's range wanted"
+    names = {n: (a, b) for n, a, b in case.get("bitnames", [])}
     for op in case["ops"]:
         k = op["op"]
-        if k == "raw":
+        if limits and k not in ("raw", "poke", "phys", "phys_get"):
+            return "limits: only raw / phys histories are judged with od.min / od.max set"
+        if k in ("raw", "poke"):
             if not lo_v <= op["v"] <= hi_v:
                 return "raw value outside the type's range"
+            if limits and not limits[0] <= op["v"] <= limits[1]:
+                return "limits: raw value outside od.min / od.max"
+            if k == "poke" and op["route"] not in ROUTES:
+                return "unknown poke route"
         elif k == "phys":
             x = _frac(op["x"])
             if x is None:
@@ -191,9 +289,17 @@ def domain(case):
             q = x / f
             if abs(q) >= 1 << 53:
                 return "phys: |x/f| >= 2^53 (beyond exact float integers)"
-            t = phys_tol(q)
+            t = phys_tol(op["x"], q)
             if _ceil(q - t) < lo_v or _floor(q + t) > hi_v:
                 return "phys: nearest integer of x/f may lie outside the type's range"
+        elif k == "refactor":
+            f = _frac(op["factor"])
+            if f is None or f == 0:
+                return "factor is not a finite non-zero number"
+        elif k == "bitdef":
+            if not (0 <= op["lo"] <= op["hi"] < 32 and op["hi"] < _w(dt)):
+                return "bit range outside the carrier type / not within 32 bits"
+            names[op["name"]] = (op["lo"], op["hi"])
         elif k in ("bset", "bget"):
             if not (0 <= op["lo"] <= op["hi"] < 32 and op["hi"] < _w(dt)):
                 return "bit range outside the carrier type / not within 32 bits"
@@ -201,6 +307,13 @@ def domain(case):
                 return "single bit number for a multi-bit range"
             if op["sp"] == "slice0" and op["lo"] != 0:
                 return "slice without start for a range not starting at 0"
+            if op["sp"] == "slice_rev" and op["lo"] == 0:
+                return "descending slice down to bit 0 cannot be written as a slice"
+            if op["sp"] == "list_rot" and op["hi"] - op["lo"] < 2:
+                return "rotated list needs at least three bits"
+            if op.get("name") is not None and (op["sp"] != "name"
+                                               or names.get(op["name"]) != (op["lo"], op["hi"])):
+                return "generator error: field name is not defined as this range at this point"
             if k == "bset" and not 0 <= op["v"] < (1 << (op["hi"] - op["lo"] + 1)):
                 return "field value does not fit the field"
     return None
@@ -212,8 +325,10 @@ def _bitdefs(case):
     for lo, hi in case.get("decoys", []):
         defs[bit_name(lo, hi)] = list(range(lo, hi + 1))
     for op in case["ops"]:
-        if op["op"] in ("bset", "bget"):
+        if op["op"] in ("bset", "bget") and op.get("name") is None:
             defs[bit_name(op["lo"], op["hi"])] = list(range(op["lo"], op["hi"] + 1))
+    for name, lo, hi in case.get("bitnames", []):      # names that "bitdef" ops may move later
+        defs[name] = list(range(lo, hi + 1))
     return defs
 
 
@@ -221,6 +336,8 @@ def od_spec(case):
     target = {"name": "v", "dt": case["dt"], "pdo": True, "factor": case["factor"], "unit": "u",
               "value_descriptions": {int(v): t for v, t in case["descs"]},
               "bit_definitions": _bitdefs(case)}
+    if case.get("limits"):
+        target["min"], target["max"] = case["limits"]
     spec = []
     for com, mp in ((0x1400, 0x1600), (0x1800, 0x1A00)):
         spec.append({"kind": "record", "index": com, "name": f"com{com:x}", "members": [
@@ -258,9 +375,27 @@ class _Local:
         self._finish()
 
     def _finish(self):
-        v = self.accessor[self.index]
-        self.var = v if self.sub == 0 else v[self.sub]
+        self.var = self.fresh()
         self.accessor[TAIL_INDEX].raw = 0x5A
+
+    def fresh(self, accessor=None):
+        """Another accessor object for the entry under test (a new one on every call)."""
+        v = (accessor or self.accessor)[self.index]
+        return v if self.sub == 0 else v[self.sub]
+
+    def set_raw(self, var, value, data, via):
+        """op "raw": through the variable under test (there is no reception on an SDO carrier)."""
+        if via == "data":
+            var.data = data
+        else:
+            var.raw = value
+
+    def poke(self, route, value, data):
+        """Change the stored value behind the back of the variable under test."""
+        if route == "accessor":
+            self.fresh().raw = value
+        else:
+            self.node.set_data(self.index, self.sub, data)
 
     def store(self):
         return self.node.data_store
@@ -290,6 +425,14 @@ class _Remote(_Local):
         self.accessor = self.node.sdo
         self._finish()
 
+    def poke(self, route, value, data):
+        if route == "accessor":
+            self.fresh().raw = value                       # another client object, SDO download
+        elif route == "backdoor":
+            self.fresh(self.server.sdo).raw = value        # the server's application
+        else:
+            self.server.set_data(self.index, self.sub, data)
+
     def store(self):
         return self.server.data_store
 
@@ -298,13 +441,21 @@ class _Pdo:
     def __init__(self, case):
         import canopen
         od = build_od(od_spec(case))
-        if case.get("pdo_side", "tpdo") == "tpdo":
-            self.node = canopen.LocalNode(NODE, od)
-            self.map = self.node.tpdo[1]
-        else:
-            self.node = canopen.RemoteNode(NODE, od)
-            self.map = self.node.rpdo[1]
+        side = case.get("pdo_side", "tpdo")
+        self.rx = side.startswith("rx_")
+        local = side in ("tpdo", "rx_rpdo")
+        self.node = canopen.LocalNode(NODE, od) if local else canopen.RemoteNode(NODE, od)
+        self.map = (self.node.tpdo if side.endswith("tpdo") else self.node.rpdo)[1]
+        if self.rx:
+            # receive direction: the map listens on a simulated bus; frames are delivered through
+            # Network.notify with a bytearray payload, like python-can's listener thread does
+            self.hub = Hub()
+            self.hub.raise_notify_errors = True
+            self.net, self.port = self.hub.attach("pdo")
+            self.net.add_node(self.node)
+            self.cob = (0x180 if side.endswith("tpdo") else 0x200) + NODE
         index, sub = _addr(case)
+        self.nbits = _w(case["dt"])
         self.pad = case.get("pad", 0)
         self.padbits = case.get("padbits", 0)     # a sub-byte field in front: the variable starts off a byte boundary
         w = _w(case["dt"])
@@ -323,6 +474,38 @@ class _Pdo:
             padvar.data = b"\xa5" * self.pad
         if self.tail:
             tailvar.data = b"\x5a"
+        if self.rx:
+            self.map.cob_id = self.cob
+            self.map.enabled = True
+            self.map.subscribe()
+
+    def frame(self, pattern):
+        """The whole PDO payload with `pattern` in the variable's place and the neighbours intact."""
+        off = self.padbits + self.pad * 8
+        low = self.bitpat | (int.from_bytes(b"\xa5" * self.pad, "little") << self.padbits)
+        F = low | (pattern << off) | ((0x5A if self.tail else 0) << (off + self.nbits))
+        return F.to_bytes((off + self.nbits + self.tail * 8 + 7) // 8, "little")
+
+    def receive(self, pattern):
+        from harness.simbus import Frame
+        self.hub.inject(Frame(self.cob, self.frame(pattern)))
+
+    def set_raw(self, var, value, data, via):
+        if via == "rx" and self.rx:
+            self.receive(int.from_bytes(data, "little"))
+        elif via == "data":
+            var.data = data
+        else:
+            var.raw = value
+
+    def poke(self, route, value, data):
+        pattern = int.from_bytes(data, "little")
+        if route == "rx" and self.rx:
+            self.receive(pattern)
+        elif route == "backdoor":
+            self.map.data = bytearray(self.frame(pattern))     # the buffer is replaced
+        else:
+            self.map.data[:] = self.frame(pattern)             # the buffer is changed in place
 
     def observe(self, nbytes):
         data = bytes(self.map.data)
@@ -363,6 +546,7 @@ def _run_on(cname, case, D):
     table = {int(v): t for v, t in case["descs"]}
     by_text = {t: int(v) for v, t in case["descs"]}
     hold = case.get("hold", False)
+    limits = case.get("limits")
     tname = rc.NAMES[dt]
 
     def bad(sig, detail):
@@ -383,11 +567,13 @@ def _run_on(cname, case, D):
         sib = ODVariable("sibling", 0x2F00)
         sib.data_type = rc.UNSIGNED32
         shift = case["sibling"]
+        sdefs = {}
         for name, bits in _bitdefs(case).items():
-            sbits = [(b + shift) % 32 for b in bits]
-            sib.add_bit_definition(name, sbits)
-        for name, bits in _bitdefs(case).items():
-            sbits = [(b + shift) % 32 for b in bits]
+            n = len(bits)
+            slo = (min(bits) + shift) % (33 - n)         # the same width at another place within 32 bits
+            sdefs[name] = list(range(slo, slo + n))
+            sib.add_bit_definition(name, sdefs[name])
+        for name, sbits in sdefs.items():
             mask = sum(1 << b for b in sbits)
             ok, got = _call(lambda: (sib.decode_bits(0xFFFFFFFF, name), sib.encode_bits(0, name, 1)))
             want = (mask >> min(sbits), 1 << min(sbits))
@@ -416,22 +602,24 @@ def _run_on(cname, case, D):
             return False
         return True
 
-    steps = [{"op": "raw", "v": case["init"]}] + list(case["ops"])
+    first = {"op": "raw", "v": case["init"]}
+    if case.get("init_via"):
+        first["via"] = case["init_via"]
+    steps = [first] + list(case["ops"])
     for k, op in enumerate(steps):
         kind = op["op"]
         tag = f"step {k} {op}"
         ret = None
         api = op.get("api", "attr")
+        noread = bool(op.get("noread"))
         if kind not in ("bset", "bget"):
             held = None
 
         if kind == "raw":
-            if op.get("via") == "data":
-                # the same value written as bytes through the variable's data attribute
-                raw_bytes = _pat(dt, op["v"]).to_bytes(nbytes, "little")
-                ok, r = _call(lambda: setattr(var, "data", raw_bytes))
-            else:
-                ok, r = _call(lambda: setattr(var, "raw", op["v"]))
+            # via=data: the same value written as bytes through the variable's data attribute;
+            # via=rx: it arrives in a frame (PDO carrier, receive direction; elsewhere like attr)
+            raw_bytes = _pat(dt, op["v"]).to_bytes(nbytes, "little")
+            ok, r = _call(lambda: car.set_raw(var, op["v"], raw_bytes, op.get("via")))
             if not ok:
                 bad("raw/raises", f"{tag}: {_exc(r)}")
                 break
@@ -439,14 +627,70 @@ def _run_on(cname, case, D):
             if not expect_stored(tag, "raw/stored"):
                 break
 
+        elif kind == "poke":
+            # the stored value changes behind the variable under test (harness action, not judged
+            # beyond having arrived in the store)
+            raw_bytes = _pat(dt, op["v"]).to_bytes(nbytes, "little")
+            ok, r = _call(lambda: car.poke(op["route"], op["v"], raw_bytes))
+            if not ok:
+                bad("poke/raises", f"{tag}: {_exc(r)}")
+                break
+            U = _pat(dt, op["v"])
+            if not expect_stored(tag, "poke/stored"):
+                break
+
+        elif kind == "refactor":
+            # the application corrects the scaling factor of the variable (documented attribute)
+            ok, r = _call(lambda: setattr(var.od, "factor", op["factor"]))
+            if not ok:
+                bad("phys/refactor-raises", f"{tag}: {_exc(r)}")
+                break
+            f = _frac(op["factor"])
+            if not expect_stored(tag, "phys/refactor-wrote"):
+                break
+            ret = "factor"
+
+        elif kind == "bitdef":
+            # a field is defined, or moved, after the variable has been used (documented method)
+            ok, r = _call(lambda: var.od.add_bit_definition(op["name"], list(range(op["lo"], op["hi"] + 1))))
+            if not ok:
+                bad("bits/define-raises", f"{tag}: {_exc(r)}")
+                break
+            if not expect_stored(tag, "bits/define-wrote"):
+                break
+            ret = "defined"
+
+        elif kind == "phys_get":
+            ok, y = _call((lambda: var.read(fmt="phys")) if api == "rw" else (lambda: var.phys))
+            if not ok:
+                bad("phys/get-raises", f"{tag}: {_exc(y)}")
+                break
+            r = _val(dt, U)
+            yq = _frac(y)
+            if yq is None or abs(yq - r * f) > abs(f) / 2 + prod_slack(r, f):
+                bad("phys/read", f"{tag}: stored raw {r}, factor {float(f)!r}: read {y!r}"
+                                 + ("" if yq is None else f" ({float(abs(yq - r * f) / abs(f))!r} steps off)"))
+                break
+            if not expect_stored(tag, "phys/read-wrote"):
+                break
+            ret = y
+
         elif kind == "phys":
             x = op["x"]
             xq = _frac(x)
             q = xq / f
+            tol = phys_tol(x, q)
+            outside = bool(limits) and not (limits[0] <= _ceil(q - tol) and _floor(q + tol) <= limits[1])
             if api == "rw":
                 ok, r = _call(lambda: var.write(x, fmt="phys"))
             else:
                 ok, r = _call(lambda: setattr(var, "phys", x))
+            if not ok and outside:
+                # beyond od.min / od.max: refusing is as good as storing, as long as nothing is written
+                if not expect_stored(tag + " (refused, outside min/max)", "phys/refused-wrote"):
+                    break
+                obs.append((k, U, "refused"))
+                continue
             if not ok:
                 bad("phys/set-raises", f"{tag}: x/f = {float(q)!r}: {_exc(r)}")
                 break
@@ -454,26 +698,26 @@ def _run_on(cname, case, D):
             if got is None:
                 break
             r = _val(dt, got)
-            tol = phys_tol(q)
             if abs(r - q) > tol:
                 bad("phys/raw-not-nearest", f"{tag}: stored raw {r}, x/f = {float(q)!r} "
                                             f"(off by {float(abs(r - q))!r} steps)")
                 break
             U = got
-            ok, y = _call((lambda: var.read(fmt="phys")) if api == "rw" else (lambda: var.phys))
-            if not ok:
-                bad("phys/get-raises", f"{tag}: {_exc(y)}")
-                break
-            yq = _frac(y)
-            if yq is None:
-                bad("phys/readback", f"{tag}: read back {y!r}")
-                break
-            allowed = abs(f) * tol + abs(r * f) * TWO51
-            if abs(yq - xq) > allowed:
-                bad("phys/readback", f"{tag}: read back {y!r} for request {x!r} (raw {r}); "
-                                     f"differs by {float(abs(yq - xq) / abs(f))!r} steps")
-                break
-            ret = y
+            if not noread:
+                ok, y = _call((lambda: var.read(fmt="phys")) if api == "rw" else (lambda: var.phys))
+                if not ok:
+                    bad("phys/get-raises", f"{tag}: {_exc(y)}")
+                    break
+                yq = _frac(y)
+                if yq is None:
+                    bad("phys/readback", f"{tag}: read back {y!r}")
+                    break
+                allowed = abs(f) * tol + prod_slack(r, f)
+                if abs(yq - xq) > allowed:
+                    bad("phys/readback", f"{tag}: read back {y!r} for request {x!r} (raw {r}); "
+                                         f"differs by {float(abs(yq - xq) / abs(f))!r} steps")
+                    break
+                ret = y
 
         elif kind == "desc":
             text = op["text"]
@@ -488,14 +732,15 @@ def _run_on(cname, case, D):
                 U = _pat(dt, by_text[text])
                 if not expect_stored(tag + f" (names {by_text[text]})", "desc/wrong-value"):
                     break
-                ok, d = _call((lambda: var.read(fmt="desc")) if api == "rw" else (lambda: var.desc))
-                if not ok:
-                    bad("desc/get-raises", f"{tag}: {_exc(d)}")
-                    break
-                if d != text:
-                    bad("desc/read", f"{tag}: reading returned {d!r}")
-                    break
-                ret = d
+                if not noread:
+                    ok, d = _call((lambda: var.read(fmt="desc")) if api == "rw" else (lambda: var.desc))
+                    if not ok:
+                        bad("desc/get-raises", f"{tag}: {_exc(d)}")
+                        break
+                    if d != text:
+                        bad("desc/read", f"{tag}: reading returned {d!r}")
+                        break
+                    ret = d
             else:
                 if ok:
                     bad("desc/unknown-accepted", f"{tag}: text is not in the table {sorted(by_text)} "
@@ -562,6 +807,9 @@ def _run_on(cname, case, D):
                 U = (U & ~(fmask << lo)) | (v << lo)
                 if not expect_stored(tag, f"bits/{sp}/set"):
                     break
+                if noread:
+                    obs.append((k, U, None))
+                    continue
                 want = v
                 reader = bits if hold else None
             else:
@@ -576,7 +824,7 @@ def _run_on(cname, case, D):
             if not ok:
                 bad(f"bits/{sp}/get-raises", f"{tag}: {_exc(g)}")
                 break
-            if isinstance(g, bool) or not isinstance(g, int) or g != want:
+            if not isinstance(g, int) or g != want:
                 bad(f"bits/{sp}/get", f"{tag}: field reads {g!r} want {want} "
                                       f"(raw pattern {U:#x})")
                 break
@@ -629,11 +877,26 @@ def classify(case):
     nontrivial = False
     first_bit = None
     signbit = False
+    tags = set()
+    factor = case["factor"]
+    if case.get("limits"):
+        tags.add("limits")
+    rx_side = case.get("pdo_side", "tpdo").startswith("rx_") and "pdo" in case["carriers"]
+    if rx_side and case.get("init_via") == "rx":
+        tags.add("rx")
     for op in case["ops"]:
         k = op["op"]
-        if k == "phys":
+        if op.get("noread"):
+            tags.add("noread")
+        if rx_side and (op.get("via") == "rx" or op.get("route") == "rx"):
+            tags.add("rx")
+        if k in ("phys", "phys_get"):
             kinds["phys"] += 1
-            nontrivial |= case["factor"] != 1
+            nontrivial |= factor != 1
+        elif k == "refactor":
+            kinds["phys"] += 1
+            factor = op["factor"]
+            tags.add("refactor")
         elif k in ("desc", "desc_get", "redesc"):
             kinds["desc"] += 1
             nontrivial |= len(case["descs"]) >= 2
@@ -642,6 +905,12 @@ def classify(case):
             first_bit = first_bit or op
             nontrivial |= op["lo"] > 0 and op["hi"] > op["lo"]
             signbit |= op["hi"] >= _usable(case["dt"])
+        elif k == "bitdef":
+            kinds["bits"] += 1
+            tags.add("bitdef")
+        elif k == "poke":
+            kinds["raw"] += 1
+            tags.add("poke-" + op["route"])
         else:
             kinds["raw"] += 1
     used = [k for k in ("phys", "desc", "bits") if kinds[k]]
@@ -649,6 +918,7 @@ def classify(case):
     sgn = "signed" if dt in rc.SIGNED else "unsigned"
     if len(used) > 1:
         klass = f"mixed/{'+'.join(used)}/{len(case['carriers'])}-carrier"
+        tags = {t.split("-")[0] for t in tags}
     elif used == ["phys"]:
         klass = f"phys/{sgn}/{_fclass(case['factor'])}"
     elif used == ["desc"]:
@@ -656,13 +926,16 @@ def classify(case):
         klass = f"desc/{sgn}/n{n if n < 3 else ('3-9' if n < 10 else '10-20')}"
     elif used == ["bits"]:
         sps = {op["sp"] for op in case["ops"] if op["op"] in ("bset", "bget")}
-        sp = first_bit["sp"] if len(sps) <= 2 else "several"
+        sp = first_bit["sp"] if first_bit and len(sps) <= 2 else "several"
         if signbit:
             klass = f"bits/{sp}/read-incl-sign-bit"
         else:
-            klass = f"bits/{sp}/{_tclass(dt)}/{_nclass(first_bit['hi'] - first_bit['lo'] + 1)}"
+            n = first_bit["hi"] - first_bit["lo"] + 1 if first_bit else 1
+            klass = f"bits/{sp}/{_tclass(dt)}/{_nclass(n)}"
     else:
         klass = f"raw-only/{sgn}"
+    if tags:
+        klass += "|" + ",".join(sorted(tags))
     return nontrivial, klass
 
 
@@ -679,7 +952,7 @@ def run_case(case) -> Outcome:
             return Outcome(nontrivial, klass, D)
         seen[cname] = obs
     names = list(seen)
-    for other in names[1:]:
+    for other in ([] if case.get("limits") else names[1:]):
         if seen[other] != seen[names[0]]:
             diff = next(((a, b) for a, b in zip(seen[names[0]], seen[other]) if a != b), None)
             D.append(Discrepancy("C20/carriers-differ",
@@ -721,7 +994,8 @@ def base_case(dt, ops, init=0, factor=0.1, descs=None, salt=0, **kw):
     case = {"dt": dt, "factor": factor, "descs": descs if descs is not None else default_descs(dt, 4, salt),
             "init": init, "ops": ops, "carriers": ["local", "remote", "pdo"],
             "where": ("var", "record", "array")[salt % 3], "sub": 1 + salt % 254,
-            "pdo_side": ("tpdo", "rpdo")[(salt // 3) % 2], "hold": False, "decoys": []}
+            "pdo_side": PDO_SIDES[(salt // 3) % 4], "hold": False, "decoys": [],
+            "init_via": (None, "rx", "data", "rx")[(salt // 2) % 4]}
     room = (64 - _w(dt)) // 8
     case["pad"] = min(room, (salt // 2) % 4)
     if 64 - _w(dt) - 8 * case["pad"] >= 8:
@@ -744,6 +1018,10 @@ def bit_cases(thorough):
                 spell.append("slice0")
             if n > 1:
                 spell.append("list_rev")
+            if n > 2:
+                spell.append("list_rot")
+            if lo > 0:
+                spell.append("slice_rev")
             for sp in spell:
                 if thorough:
                     types = fits
@@ -764,7 +1042,7 @@ def bit_cases(thorough):
                         {"op": "bget", "sp": sp, "lo": lo, "hi": hi},
                         {"op": "bset", "sp": sp, "lo": lo, "hi": hi, "v": ones},
                         {"op": "bset", "sp": sp, "lo": lo, "hi": hi, "v": 0},
-                        {"op": "raw", "v": _val(dt, ~u0 & full)},
+                        dict({"op": "raw", "v": _val(dt, ~u0 & full)}, **({"via": "rx"} if i % 2 else {})),
                         {"op": "bset", "sp": sp, "lo": lo, "hi": hi, "v": rnd},
                         {"op": "bget", "sp": other, "lo": lo, "hi": hi},
                         {"op": "bset", "sp": sp, "lo": lo, "hi": hi, "v": alt_v ^ (1 if rnd == alt_v else 0)},
@@ -794,7 +1072,8 @@ def signbit_cases():
                 i += 1
                 u0 = (_mix(lo, w, i) & full) | (1 << (w - 1))
                 ops = [{"op": "bget", "sp": sp, "lo": lo, "hi": hi},
-                       dict({"op": "raw", "v": _val(dt, ~u0 & full)}, **({"via": "data"} if i % 2 else {})),
+                       dict({"op": "raw", "v": _val(dt, ~u0 & full)},
+                            **({"via": "data"} if i % 2 else {"via": "rx"} if i % 4 == 0 else {})),
                        {"op": "bget", "sp": sp, "lo": lo, "hi": hi},
                        {"op": "raw", "v": -1},
                        {"op": "bget", "sp": sp, "lo": lo, "hi": hi}]
@@ -930,6 +1209,227 @@ def desc_cases(thorough):
                             init=values[0], descs=descs, salt=i, factor=1)
 
 
+def _chunks(ops, n):
+    return [ops[c:c + n] for c in range(0, len(ops), n)]
+
+
+def exact_phys_cases(thorough):
+    """Requests that are exact multiples of the factor with quotients up to 2^53: x and x/f are exact
+    doubles, the stored raw value must be exactly x/f (no float slack applies)."""
+    i = 0
+    big = [dt for dt in INT_TYPES if rc.int_range(dt)[1] >= (1 << 53) - 1]
+    facs = [1, -1, 1.0, 2, -2, 4, 0.5, -0.5, 0.25, -0.125, 1 / 1024, 1024, 8.0]
+    for dt in big:
+        lo_v, hi_v = rc.int_range(dt)
+        for fi, factor in enumerate(facs):
+            rs = [(1 << 52) + 1, (1 << 52) + 3, (1 << 53) - 1, (1 << 53) - 3, (1 << 52) + 2, (1 << 51) + 1,
+                  (1 << 52) - 1, (1 << 53) - 2, (1 << 52) | (_mix(dt, fi) & ((1 << 52) - 1)) | 1,
+                  (1 << 52) | (_mix(fi, dt, 3) & ((1 << 52) - 1)) | 1]
+            if not thorough:
+                rs = rs[fi % 2::2] + rs[:1]
+            ops = []
+            for j, r0 in enumerate(rs):
+                for r in ((r0, -r0) if lo_v < 0 else (r0,)):
+                    xq = Fraction(r) * Fraction(factor)
+                    x = int(xq) if (xq.denominator == 1 and (j + fi) % 2 == 0) else float(xq)
+                    if Fraction(x) != xq:
+                        continue
+                    op = {"op": "phys", "x": x, "api": "rw" if (j + fi) % 3 == 0 else "attr"}
+                    if domain({"dt": dt, "factor": factor, "init": 0, "ops": [op]}) is None:
+                        ops.append(op)
+            for chunk in _chunks(ops, 6):
+                i += 1
+                yield base_case(dt, chunk, init=0, factor=factor, salt=i)
+
+
+def limits_cases(thorough):
+    """od.min / od.max are set on the variable: requests inside, at and beyond the limits."""
+    i = 0
+    for ti, dt in enumerate(INT_TYPES):
+        lo_v, hi_v = rc.int_range(dt)
+        spans = [(0, 100), (10, 120)] if lo_v == 0 else [(-100, 100), (-5, 50)]
+        for si, (mn, mx) in enumerate(spans):
+            for fi, factor in enumerate((0.1, 1, -0.5, 3, 1e-3, 0.25)):
+                if not thorough and (ti + si + fi) % 3:
+                    continue
+                ops = []
+                for j, r in enumerate((mx + 100, mn - 20, mn - 1, mn, (mn + mx) // 2, mx, mx + 1, mx + 27, mn + 1)):
+                    if not lo_v <= r <= hi_v:
+                        continue
+                    x = phys_request(dt, factor, r, (Fraction(0), Fraction(1, 4), Fraction(-2, 5))[(j + fi) % 3],
+                                     as_int=j % 2 == 0)
+                    if x is None:
+                        continue
+                    ops.append({"op": "phys", "x": x, "api": "rw" if (j + fi) % 4 == 0 else "attr"})
+                    if j % 4 == 3:
+                        ops.append({"op": "phys_get"})
+                for chunk in _chunks(ops, 6):
+                    i += 1
+                    yield base_case(dt, chunk, init=mn + (i % (mx - mn + 1)), factor=factor, salt=i, limits=[mn, mx])
+
+
+def poke_cases(thorough):
+    """The stored value is changed out of band between two operations through the variable under test:
+    the next read must show the stored value, a set repeated with the identical argument must write."""
+    i = 0
+    for ti, dt in enumerate(INT_TYPES):
+        lo_v, hi_v = rc.int_range(dt)
+        full = (1 << _w(dt)) - 1
+        usable = min(32, _usable(dt))
+        for rep in range(8 if thorough else 1):
+            for ri, route in enumerate(ROUTES):
+                i += 1
+                descs = default_descs(dt, 4, salt=i)
+                vals = [v for v, _ in descs]
+                texts = [t for _, t in descs]
+                a, b = (i + rep) % 4, (i + rep + 1 + ri) % 4
+                if a == b:
+                    b = (a + 1) % 4
+                api = "rw" if i % 3 == 0 else "attr"
+                # -- descriptions
+                yield base_case(dt, [{"op": "desc", "text": texts[a], "noread": True, "api": api},
+                                     {"op": "poke", "v": vals[b], "route": route},
+                                     {"op": "desc_get", "api": api},
+                                     {"op": "desc", "text": texts[a]},
+                                     {"op": "poke", "v": vals[b], "route": route},
+                                     {"op": "desc", "text": texts[a], "api": api},
+                                     {"op": "poke", "v": 4, "route": route},
+                                     {"op": "desc_get"}],
+                                init=vals[b], descs=descs, salt=i, factor=(1, 0.5, -3, 1e-3)[i % 4])
+                # -- raw writes through the variable, reads through every view
+                lo = (i * 5) % max(1, usable - 3)
+                hi = min(usable - 1, lo + 1 + i % 3)
+                yield base_case(dt, [{"op": "raw", "v": vals[a]},
+                                     {"op": "poke", "v": vals[b], "route": route},
+                                     {"op": "desc_get", "api": api},
+                                     {"op": "raw", "v": vals[a]},
+                                     {"op": "poke", "v": _val(dt, _mix(i, 5) & full), "route": route},
+                                     {"op": "bget", "sp": ("list", "slice", "name")[i % 3], "lo": lo, "hi": hi},
+                                     dict({"op": "raw", "v": vals[a]}, **({"via": "data"} if i % 2 else {})),
+                                     {"op": "phys_get"}],
+                                init=vals[b], descs=descs, salt=i + 1, factor=(0.1, -2, 0.25, 3)[i % 4])
+                # -- physical values
+                factor = (0.1, -2, 0.25, 3, 1, 1e-3)[(i + rep) % 6]
+                x1 = phys_request(dt, factor, 50 + rep, Fraction(1, 4), as_int=False)
+                if x1 is not None:
+                    yield base_case(dt, [{"op": "phys", "x": x1, "noread": True, "api": api},
+                                         {"op": "poke", "v": 7, "route": route},
+                                         {"op": "phys_get", "api": api},
+                                         {"op": "phys", "x": x1},
+                                         {"op": "poke", "v": 7, "route": route},
+                                         {"op": "phys", "x": x1, "noread": True},
+                                         {"op": "phys_get"},
+                                         {"op": "poke", "v": hi_v if i % 2 else lo_v, "route": route},
+                                         {"op": "phys_get"}],
+                                    init=3, salt=i + 2, factor=factor)
+                # -- bit fields: the poke either changes everything, or only the field just assigned
+                # (so that the repeated assignment produces the very bytes written before)
+                sp = ("list", "slice", "name", "slice1", "list_rev")[i % 5]
+                n = hi - lo + 1
+                fm = ((1 << n) - 1) << lo
+                u0 = _mix(i, lo, hi) & full
+                v = _mix(i, 9) & ((1 << n) - 1)
+                after = (u0 & ~fm) | (v << lo)
+                yield base_case(dt, [{"op": "bset", "sp": sp, "lo": lo, "hi": hi, "v": v, "noread": True},
+                                     {"op": "poke", "v": _val(dt, after ^ fm), "route": route},
+                                     {"op": "bget", "sp": sp, "lo": lo, "hi": hi},
+                                     {"op": "bset", "sp": sp, "lo": lo, "hi": hi, "v": v},
+                                     {"op": "poke", "v": _val(dt, ~after & full), "route": route},
+                                     {"op": "bset", "sp": sp, "lo": lo, "hi": hi, "v": v, "noread": True},
+                                     {"op": "poke", "v": _val(dt, after ^ fm), "route": route},
+                                     {"op": "bget", "sp": "list", "lo": lo, "hi": hi}],
+                                init=_val(dt, u0), salt=i + 3, factor=(0.1, 1, -2, 0.25)[i % 4], hold=(i % 4 == 0))
+
+
+REFACTOR_PAIRS = [(0.1, 0.01), (0.01, 0.1), (1, 0.5), (2, -2), (0.25, 3), (1e-3, 1e3), (-0.5, 0.5), (7, 1),
+                  (1, 10), (0.1, 1), (1 / 3, 3), (5, 0.2)]
+
+
+def refactor_cases(thorough):
+    """The scaling factor of the variable is assigned after (or before) its first use."""
+    i = 0
+    for pi, (f1, f2) in enumerate(REFACTOR_PAIRS):
+        types = INT_TYPES if thorough else [INT_TYPES[(pi * 3 + j * 5) % len(INT_TYPES)] for j in range(3)]
+        for dt in dict.fromkeys(types):
+            i += 1
+
+            def req(factor, r, delta=Fraction(0), prefer=None):
+                if prefer is not None and domain({"dt": dt, "factor": factor, "init": 0,
+                                                  "ops": [{"op": "phys", "x": prefer}]}) is None:
+                    return prefer
+                return phys_request(dt, factor, r, delta, as_int=False)
+
+            x1 = req(f1, 50, Fraction(1, 4))
+            x2 = req(f2, 41, Fraction(-1, 4), prefer=x1)      # the very same request where it fits
+            x3 = req(f1, 17, Fraction(0), prefer=x2)
+            if None in (x1, x2, x3):
+                continue
+            api = "rw" if i % 3 == 0 else "attr"
+            yield base_case(dt, [{"op": "phys", "x": x1, "api": api},
+                                 {"op": "refactor", "factor": f2},
+                                 {"op": "phys", "x": x2, "api": api},
+                                 {"op": "phys_get"},
+                                 {"op": "refactor", "factor": f1},
+                                 {"op": "phys_get", "api": api},
+                                 {"op": "phys", "x": x3},
+                                 {"op": "phys", "x": x1, "noread": True}],
+                            init=5, factor=f1, salt=i)
+            yield base_case(dt, [{"op": "refactor", "factor": f2},        # corrected before the first use
+                                 {"op": "phys", "x": x2},
+                                 {"op": "poke", "v": 9, "route": ROUTES[i % 3]},
+                                 {"op": "phys_get"},
+                                 {"op": "refactor", "factor": f1},
+                                 {"op": "phys", "x": x1, "api": api}],
+                            init=5, factor=f1, salt=i + 1)
+
+
+def bitdef_cases(thorough):
+    """add_bit_definition after the variable (and its named fields) have been used: a new name, an
+    existing name moved elsewhere; ops by name follow the definition that is current then."""
+    i = 0
+    for ti, dt in enumerate(INT_TYPES):
+        usable = min(32, _usable(dt))
+        full = (1 << _w(dt)) - 1
+        for k in range(24 if thorough else 3):
+            if not thorough and dt != rc.UNSIGNED32 and (ti + k) % 2:
+                continue
+            i += 1
+            n1, n2, n3 = 1 + (i % 3), 1 + ((i // 2) % 4), 1 + ((i // 3) % 3)
+            lo1 = (i * 3) % (usable - n1 + 1)
+            lo2 = (i * 5 + 2) % (usable - n2 + 1)
+            lo3 = (lo1 + n1 + i) % (usable - n3 + 1)
+            A, B = ("A", "B") if i % 2 else ("ready", "fault code")
+            r1, r2, r3 = (lo1, lo1 + n1 - 1), (lo2, lo2 + n2 - 1), (lo3, lo3 + n3 - 1)
+
+            def named(kind, name, r, v=None, **kw):
+                op = dict({"op": kind, "sp": "name", "name": name, "lo": r[0], "hi": r[1]}, **kw)
+                if v is not None:
+                    op["v"] = v & ((1 << (r[1] - r[0] + 1)) - 1)
+                return op
+
+            u0 = _mix(i, 77) & full
+            yield base_case(dt, [named("bset", A, r1, _mix(i, 1)),
+                                 {"op": "bitdef", "name": B, "lo": r2[0], "hi": r2[1]},
+                                 named("bset", B, r2, _mix(i, 2)),
+                                 named("bget", B, r2),
+                                 {"op": "bitdef", "name": A, "lo": r3[0], "hi": r3[1]},
+                                 named("bset", A, r3, ~_mix(i, 1)),
+                                 named("bget", A, r3),
+                                 {"op": "bget", "sp": "list", "lo": r1[0], "hi": r1[1]}],
+                            init=_val(dt, u0), salt=i, bitnames=[[A, r1[0], r1[1]]], hold=(i % 5 == 0),
+                            factor=(0.1, 1, -2, 0.25)[i % 4], sibling=(0, 3)[i % 2])
+            yield base_case(dt, [named("bget", A, r1),
+                                 {"op": "bitdef", "name": A, "lo": r2[0], "hi": r2[1]},
+                                 named("bget", A, r2),
+                                 named("bset", A, r2, _mix(i, 4), noread=True),
+                                 {"op": "poke", "v": _val(dt, ~u0 & full), "route": ROUTES[i % 3]},
+                                 named("bget", A, r2),
+                                 {"op": "bitdef", "name": B, "lo": r1[0], "hi": r1[1]},
+                                 named("bset", B, r1, _mix(i, 5))],
+                            init=_val(dt, u0), salt=i + 1, bitnames=[[A, r1[0], r1[1]]],
+                            factor=(0.1, 1, -2, 0.25)[i % 4])
+
+
 # -- Hypothesis: mixed histories ------------------------------------------------------------------
 def _raw_strategy(dt):
     lo, hi = rc.int_range(dt)
@@ -967,24 +1467,65 @@ def mixed_case(draw, kinds):
     values, texts, retired = list(values), list(texts), []
     usable = min(32, _usable(dt))
     ops = []
+    cur = factor                # the factor current at this point of the history
+    custom = {}                 # names defined by "bitdef" ops so far
+    last_set = None
     for _ in range(draw(st.integers(1, 8))):
         kind = draw(st.sampled_from(kinds))
         if kind == "raw":
             ops.append({"op": "raw", "v": draw(st.one_of(_raw_strategy(dt), st.sampled_from(values)))})
-            if draw(st.integers(0, 2)) == 0:
-                ops[-1]["via"] = "data"
+            via = draw(st.sampled_from([None, None, "data", "rx"]))
+            if via:
+                ops[-1]["via"] = via
+            last_set = ops[-1]
+        elif kind == "poke":
+            # out-of-band change, then (mostly) the last assignment once more with the identical argument,
+            # or a read through one of the views
+            ops.append({"op": "poke", "route": draw(st.sampled_from(ROUTES)),
+                        "v": draw(st.one_of(_raw_strategy(dt), st.sampled_from(values)))})
+            follow = draw(st.integers(0, 5))
+            if follow <= 2 and last_set is not None:
+                ops.append(dict(last_set))
+            elif follow == 3:
+                ops.append({"op": "desc_get"})
+            elif follow == 4:
+                ops.append({"op": "phys_get", "api": draw(st.sampled_from(["attr", "rw"]))})
+        elif kind == "refactor":
+            cur = draw(_factor_strategy())
+            ops.append({"op": "refactor", "factor": cur})
+            if last_set is not None and last_set["op"] == "phys":
+                last_set = None                 # the same request may be out of range under the new factor
+        elif kind == "phys_get":
+            ops.append({"op": "phys_get", "api": draw(st.sampled_from(["attr", "attr", "rw"]))})
+        elif kind == "bitdef":
+            name = draw(st.sampled_from(["A", "B", "ready", "fault code", "Ü"]))
+            a = draw(st.integers(0, usable - 1))
+            b = draw(st.integers(a, min(usable - 1, a + 5)))
+            custom[name] = (a, b)
+            ops.append({"op": "bitdef", "name": name, "lo": a, "hi": b})
+            if last_set is not None and last_set.get("name") == name:
+                last_set = None
+            if draw(st.booleans()):
+                op = {"op": draw(st.sampled_from(["bset", "bget"])), "sp": "name", "name": name, "lo": a, "hi": b}
+                if op["op"] == "bset":
+                    op["v"] = draw(st.integers(0, (1 << (b - a + 1)) - 1))
+                    last_set = op
+                ops.append(op)
         elif kind == "phys":
             lim = (1 << 53) - 2
             r = draw(_raw_strategy(dt))
             r = max(-lim, min(lim, r))
             delta = draw(st.one_of(st.sampled_from(PHYS_DELTAS),
                                    st.fractions(Fraction(-1, 2), Fraction(1, 2), max_denominator=10 ** 6)))
-            x = phys_request(dt, factor, r, delta, as_int=draw(st.booleans()))
+            x = phys_request(dt, cur, r, delta, as_int=draw(st.booleans()))
             if x is None:           # at the very edge of the range: move inwards
-                x = phys_request(dt, factor, r // 2, Fraction(0), as_int=False)
+                x = phys_request(dt, cur, r // 2, Fraction(0), as_int=False)
             if x is None:
                 continue
             ops.append({"op": "phys", "x": x, "api": draw(st.sampled_from(["attr", "attr", "rw"]))})
+            if draw(st.integers(0, 3)) == 0:
+                ops[-1]["noread"] = True
+            last_set = ops[-1]
         elif kind == "desc" and draw(st.integers(0, 5)) == 0:
             # the table is edited between uses: another text for a described value, or one more entry
             if draw(st.integers(0, 2)) or len(values) >= 20:
@@ -1017,6 +1558,9 @@ def mixed_case(draw, kinds):
             else:
                 t = draw(st.sampled_from(texts))
             ops.append({"op": "desc", "text": t, "api": draw(st.sampled_from(["attr", "attr", "rw"]))})
+            if draw(st.integers(0, 3)) == 0:
+                ops[-1]["noread"] = True
+            last_set = ops[-1] if t in texts else last_set
         elif kind == "desc_get":
             ops.append({"op": "desc_get", "api": draw(st.sampled_from(["attr", "attr", "rw"]))})
         else:
@@ -1029,12 +1573,23 @@ def mixed_case(draw, kinds):
                 sps.append("slice0")
             if hi > lo:
                 sps.append("list_rev")
+            if hi > lo + 1:
+                sps.append("list_rot")
+            if lo > 0:
+                sps.append("slice_rev")
             op = {"op": kind, "sp": draw(st.sampled_from(sps)), "lo": lo, "hi": hi}
+            if custom and draw(st.integers(0, 2)) == 0:
+                name = draw(st.sampled_from(sorted(custom)))
+                lo, hi = custom[name]
+                op = {"op": kind, "sp": "name", "name": name, "lo": lo, "hi": hi}
             if kind == "bset":
                 ones = (1 << (hi - lo + 1)) - 1
                 op["v"] = draw(st.one_of(st.sampled_from([0, 1, ones]), st.integers(0, ones)))
+                if draw(st.integers(0, 3)) == 0:
+                    op["noread"] = True
+                last_set = op
             ops.append(op)
-    if all(op["op"] == "raw" for op in ops):
+    if all(op["op"] in ("raw", "poke", "refactor", "bitdef") for op in ops):
         ops.append({"op": "bget", "sp": "list", "lo": 0, "hi": usable - 1})
     carriers = draw(st.sampled_from([["local"], ["remote"], ["pdo"], ["local", "remote", "pdo"],
                                      ["pdo", "local"], ["remote", "pdo"]]))
@@ -1048,7 +1603,8 @@ def mixed_case(draw, kinds):
             "init": draw(st.one_of(_raw_strategy(dt), st.sampled_from(values))),
             "ops": ops, "carriers": carriers,
             "where": draw(st.sampled_from(["var", "record", "array"])), "sub": draw(st.integers(1, 254)),
-            "pdo_side": draw(st.sampled_from(["tpdo", "rpdo"])), "hold": draw(st.booleans()),
+            "pdo_side": draw(st.sampled_from(PDO_SIDES)), "hold": draw(st.booleans()),
+            "init_via": draw(st.sampled_from([None, "rx", "data"])),
             "pad": draw(st.integers(0, min(3, room))), "decoys": decoys,
             "padbits": draw(st.sampled_from([0, 0, 1, 3, 4, 7])) if room >= 4 else 0,
             "sibling": draw(st.sampled_from([0, 0, 0, 1, 5, 16, 31]))}
@@ -1059,15 +1615,27 @@ def _showcase():
     for gen in (phys_cases(False), desc_cases(False), bit_cases(False), signbit_cases()):
         for case in islice(gen, 40, 400, 170):
             yield case
+    for gen in (exact_phys_cases(False), limits_cases(False), poke_cases(False), refactor_cases(False),
+                bitdef_cases(False)):
+        for case in islice(gen, 1, 30, 11):
+            yield case
 
 
 ALL_KINDS = ["raw", "phys", "phys", "desc", "desc", "desc_get", "bset", "bset", "bget"]
+EDIT_KINDS = ALL_KINDS + ["poke", "poke", "poke", "refactor", "bitdef", "bitdef", "phys_get"]
 
 
 def search(ctx):
     thorough = ctx.tier == "thorough"
     # a few cases of every family first, so that the evidence samples show all of them
     ctx.enumerate(_showcase())
+    ctx.enumerate(poke_cases(thorough), "out-of-band change of the stored value (3 routes) x views x types, then "
+                                        "reads and identical repeated sets")
+    ctx.enumerate(refactor_cases(thorough), "od.factor assigned mid-history: 12 factor pairs x types")
+    ctx.enumerate(bitdef_cases(thorough), "add_bit_definition after first use (new name / moved name) x types")
+    ctx.enumerate(exact_phys_cases(thorough), "exact multiples of power-of-two factors, |x/f| in 2^51..2^53, "
+                                              "56/64-bit types")
+    ctx.enumerate(limits_cases(thorough), "od.min/od.max set: requests inside, at and beyond the limits")
     ctx.enumerate(bit_cases(thorough),
                   "all 528 contiguous bit ranges within 32 bits x spellings x carriers"
                   + (" x every carrier type" if thorough else " (UNSIGNED32 + one rotating type)"))
@@ -1076,5 +1644,7 @@ def search(ctx):
                                         "boundary raws x offsets in the rounding interval")
     ctx.enumerate(desc_cases(thorough), "description tables of every size 1..20 x types")
     ctx.hypothesis(mixed_case(ALL_KINDS), 4000 if thorough else 500, salt=1)
-    ctx.hypothesis(mixed_case(["phys", "phys", "raw"]), 2000 if thorough else 250, salt=2)
-    ctx.hypothesis(mixed_case(["bset", "bget", "bset", "raw"]), 2000 if thorough else 250, salt=3)
+    ctx.hypothesis(mixed_case(["phys", "phys", "raw", "refactor", "poke", "phys_get"]), 2000 if thorough else 250,
+                   salt=2)
+    ctx.hypothesis(mixed_case(["bset", "bget", "bset", "raw", "bitdef", "poke"]), 2000 if thorough else 250, salt=3)
+    ctx.hypothesis(mixed_case(EDIT_KINDS), 3000 if thorough else 400, salt=4)
